@@ -292,6 +292,17 @@ func runC10(c *core.Check) {
 					}
 				}
 				c.Decide(okNext, "C10.null", "_compileEdges:delete-then-continue", call.Pos(), "delete, then continue", "after deleting an edge for `(a -> b)[i]: null` the loop goes on compiling into the deleted edge")
+				// the connection itself is deleted only when null is its own value, not the value of one of its attributes
+				efl := core.NewFlow(ce.Pkg, ce.Decl.Body)
+				onlyWhole := false
+				for _, g := range efl.GuardsOfNode(call) {
+					for _, a := range g.Atoms() {
+						if x, nonNil, isNil := a.NilTest(info); isNil && !nonNil && strings.HasSuffix(exprStr(x), ".EdgeKey") {
+							onlyWhole = true
+						}
+					}
+				}
+				c.Decide(onlyWhole, "C10.null", "_compileEdges:delete-only-without-edge-key", call.Pos(), "under Key.EdgeKey == nil", "null deletes the whole connection even when the key names an attribute of it: `(a -> b)[0].style.opacity: null` removes the connection a -> b instead of its opacity")
 			}
 			return true
 		})
